@@ -104,7 +104,7 @@ func levels(r *vrt.R, threshold int) []int {
 }
 
 func enumerate(r *vrt.R, emit func(*caseSpec) bool) {
-	if !enumSmall(r, emit) || !enumLarge(r, emit) || !enumSwitch(r, emit) {
+	if !enumSmall(r, emit) || !enumLarge(r, emit) || !enumSwitch(r, emit) || !enumPacketLayer(r, emit) {
 		return
 	}
 }
@@ -258,6 +258,51 @@ func enumSwitch(r *vrt.R, emit func(*caseSpec) bool) bool {
 								}
 								if !emit(mk("clientbound", seq, kind, k, a, "", fl, &bb, secret2)) {
 									return false
+								}
+							}
+						}
+					}
+				}
+			}
+		}
+	}
+	return true
+}
+
+// the packet layer around the frames: every 3-step sequence over the six ways a payload can be handed to the
+// writer (two of them succeed through different entry points, one makes the READER take its "packet decoder
+// left bytes" path, three fail inside WritePacket), so that every failing or lazy step is met before, between
+// and after good ones. Both flush policies, encryption off/on, three thresholds; with logging switched on for
+// the plain/flush-each slice (thorough: everywhere).
+func enumPacketLayer(r *vrt.R, emit func(*caseSpec) bool) bool {
+	vias := []string{"write", "packet", "lazy", "fail-error", "fail-panic", "unregistered"}
+	patterns := []struct {
+		sizes [3]int
+		kind  string
+	}{{[3]int{70, 300, 5}, "lcg"}, {[3]int{300, 5, 70}, "rep"}}
+	n := 0
+	for _, v0 := range vias {
+		for _, v1 := range vias {
+			for _, v2 := range vias {
+				if v0 == v1 && v1 == v2 && (v0 == "write" || v0 == "packet") {
+					continue // enumSmall/enumSwitch territory
+				}
+				for _, pat := range patterns {
+					for _, t := range []int{-1, 0, 64} {
+						for _, sec := range []string{"", secret1} {
+							for _, fl := range []bool{false, true} {
+								for _, lg := range []bool{false, true} {
+									if lg && !r.Thorough() && (sec != "" || fl) {
+										continue
+									}
+									n++
+									cs := &caseSpec{Dir: []string{"serverbound", "clientbound"}[n%2], Threshold: t, Level: -1, Secret: sec, FlushAtEnd: fl, Log: lg}
+									for i, v := range []string{v0, v1, v2} {
+										cs.Steps = append(cs.Steps, step{Size: pat.sizes[i], Content: pat.kind, Via: v})
+									}
+									if !emit(cs) {
+										return false
+									}
 								}
 							}
 						}
